@@ -30,6 +30,7 @@ def plan(tier, seed):
     specs = shards("docs", 4000 if q else 250000, 250 if q else 4000, seed)
     specs += shards("reused", 1500 if q else 80000, 250 if q else 4000, seed)
     specs += shards("boundaries", 480 if q else 24000, 30 if q else 600, seed)
+    specs += [{"family": "thresholds", "seed": seed, "n": 1, "part": k, "parts": 16, "tier": tier} for k in range(16)]
     specs += shards("noisy", 4000 if q else 150000, 500 if q else 5000, seed)
     specs += shards("faulted", 2000 if q else 80000, 250 if q else 4000, seed)
     specs += shards("rows", 6 ** 5 if q else 6 ** 7, 6 ** 4 if q else 6 ** 5, seed, L=5 if q else 7)
@@ -54,6 +55,12 @@ def run_shard(spec, M):
             doccheck.check_doc(R, M, case, "C04", reused=reused)
             if i % 499 == 0:
                 M.sample({"dialect": R.dialect, "text": short(R.text, 300)})
+    elif fam == "thresholds":
+        from .. import thresholds
+        for dim, n in thresholds.cases(spec["tier"], spec["part"], spec["parts"]):
+            R = thresholds.build(dim, n)
+            M.hist("threshold_dims", dim)
+            doccheck.check_doc(R, M, {"kind": "threshold", "dim": dim, "n": n}, "C04")
     elif fam == "noisy":
         for i in range(spec["start"], spec["start"] + spec["n"]):
             r = rng(seed, ID, fam, i)
@@ -138,6 +145,10 @@ def check_row(row, M):
 
 
 def replay(case, M):
+    if case.get("kind") == "threshold":
+        from .. import thresholds
+        doccheck.check_doc(thresholds.build(case["dim"], case["n"]), M, case, "C04")
+        return
     if case.get("kind") == "shard":
         run_shard(case["spec"], M)
         return
